@@ -538,7 +538,7 @@ class RcFnTr(FnTr):
                         raise Unsupported("word-slice argument")
             else:
                 texts.append(self.expr(a).atom())
-        call = f"{self.u.namespace}.{name}" + "".join(" " + t for t in self.u.callee_lead.get(name, [])) + "".join(" " + t for t in texts[len(self.u.lead_args):])
+        call = f"{self.u.callee_ns.get(name, self.u.namespace)}.{name}" + "".join(" " + t for t in self.u.callee_lead.get(name, [])) + "".join(" " + t for t in texts[len(self.u.lead_args):])
         ncomp = (1 if sig["ret"] is not None else 0) + len(backs)
         t = self.fresh("r")
         self.emit(f"let {t} := {call};")
@@ -589,7 +589,7 @@ class RcUnit(Unit):
         self.elem_types = elem_types or {}
         self.self_lean = self_lean or sinfo.lean
         self.fn_lead = fn_lead or {}
-        self.callee_lead = {}
+        self.callee_lead, self.callee_ns = {}, {}
         lead = "".join(" " + a for a in lead_args)
         self.extern = {m: f"{namespace}.{m}{lead}" for m in methods}
 
@@ -624,6 +624,17 @@ def build_units(report):
     report["rand_core"] = dict(source=d, version=ver, sha256=digest)
     fi, fb, fl, fr = (rsfront.load(os.path.join(d, f)) for f in FILES)
     TYCTX["aliases"], TYCTX["consts"] = {}, {}
+    # impls.rs, le.rs: free functions
+    obs = {ty: "".join(t[1] for t in fns["to_le_bytes"].body) for trait, ty, fns, consts in fi.impls
+           if trait == "Observable" and "to_le_bytes" in fns}
+    ms = {k: v for k, v in fi.fns.items() if k in ("next_u64_via_u32", "fill_bytes_via_next", "fill_via_chunks") and v.body is not None}
+    ms.update({k: v for k, v in fl.fns.items() if k in ("read_u32_into", "read_u64_into") and v.body is not None})
+    u = RcUnit("RandCore", StructInfo("RandCore", "Unit", {}), ms, "Rngs.Ext.RandCore", ["{σ : Type}"], [], generic_elem=True,
+               elem_types={"T": "@T"},
+               fn_lead={"fill_via_chunks": (["{w : Nat}", "(size : Nat)", "(toLE : BitVec w → List U8)"], ["size", "toLE"]),
+                        "read_u32_into": ([], []), "read_u64_into": ([], [])})
+    u.shape, u.seed_len, u.file = ("rand_core", 0), None, "rand_core-0.9.5/src/impls.rs, le.rs"
+    yield u, ["next_u64_via_u32", "fill_bytes_via_next", "fill_via_chunks", "read_u32_into", "read_u64_into"]
     # block.rs
     for sname, w, lean in (("BlockRng", 32, "BlockRng σ"), ("BlockRng64", 64, "BlockRng64 σ")):
         ms = {}
@@ -640,16 +651,13 @@ def build_units(report):
         u = RcUnit("RandCore" + sname, StructInfo(sname, lean, fields), ms, "Rngs.Ext.RandCore" + sname,
                    ["{σ : Type}", f"(c : BlockCore σ {w})"], ["c"], generics="R : BlockRngCore", core_param="R", word=f"u{w}")
         u.shape, u.seed_len, u.file = ("rand_core", w), None, "rand_core-0.9.5/src/block.rs"
+        # `fill_via_chunks(src, dest)` of impls.rs at T = u32 / u64: `size_of::<T>()` and `<T as Observable>::to_le_bytes`
+        if obs.get(f"u{w}") == "Self::to_le_bytes(self)" and "fill_via_chunks" in fi.fns:
+            u.sigs["fill_via_chunks"] = dict(selfkind=None, params=[("src", None), ("dest", None)], mutref={"dest"},
+                                             ret=("named", "(usize,usize)"), rc=[("words", "src"), ("bytes", "dest")])
+            u.callee_ns["fill_via_chunks"] = "Rngs.Ext.RandCore"
+            u.callee_lead["fill_via_chunks"] = [str(w // 8), f"U{w}.toLE"]
         yield u, ["new", "index", "reset", "generate_and_set", "next_u32", "next_u64", "fill_bytes"]
-    # impls.rs, le.rs: free functions
-    ms = {k: v for k, v in fi.fns.items() if k in ("next_u64_via_u32", "fill_bytes_via_next", "fill_via_chunks") and v.body is not None}
-    ms.update({k: v for k, v in fl.fns.items() if k in ("read_u32_into", "read_u64_into") and v.body is not None})
-    u = RcUnit("RandCore", StructInfo("RandCore", "Unit", {}), ms, "Rngs.Ext.RandCore", ["{σ : Type}"], [], generic_elem=True,
-               elem_types={"T": "@T"},
-               fn_lead={"fill_via_chunks": (["{w : Nat}", "(size : Nat)", "(toLE : BitVec w → List U8)"], ["size", "toLE"]),
-                        "read_u32_into": ([], []), "read_u64_into": ([], [])})
-    u.shape, u.seed_len, u.file = ("rand_core", 0), None, "rand_core-0.9.5/src/impls.rs, le.rs"
-    yield u, ["next_u64_via_u32", "fill_bytes_via_next", "fill_via_chunks", "read_u32_into", "read_u64_into"]
     # lib.rs: the default methods of SeedableRng
     tr = fr.traits.get("SeedableRng")
     if tr is None:
@@ -684,6 +692,22 @@ def _block(G, M, w):
         "next_u64": (f"∀ {{σ : Type}} (c : BlockCore σ {w}) (st : {M} σ), {hs} {E}.next_u64 c st = {M}.nextU64 c st", ["C05", "C14"],
                      f"intro σ c st h\n  simp only [{E}.next_u64, {M}.nextU64, h, ExtTie.{G}.generate_and_set, ge_iff_le, decide_eq_true_eq, BlockRng.readU64]\n  first | done | rfl | (split <;> rfl)"),
     }
+    st0 = "st" if w == 32 else "({ st with halfUsed := false } : BlockRng64 σ)"
+    fl = f"({M}.fillLoop c dest.length fuel 0 [] {st0})"
+    gen = f"ExtTie.{G}.generate_and_set, " if w == 32 else ""
+    th["fill_bytes"] = (
+        f"∀ {{σ : Type}} (c : BlockCore σ {w}) (fuel : Nat) (st : {M} σ) (dest : List U8), BlockRefine.SizeOK c → st.results.size = c.len → "
+        f"{E}.fill_bytes c fuel st dest = ({fl}.1 ++ dest.drop {fl}.1.length, {fl}.2)", ["C05", "C14"],
+        f"""intro σ c fuel st dest hs h
+  unfold {E}.fill_bytes
+  simp only []
+  rw [show ({st0}, dest, 0) = ({st0}, [] ++ dest, ([] : List U8).length) from rfl]
+  rw [whileF_blockFill{w} c hs dest.length _ _ (by intros; rfl)
+        (by intro st d rl
+            simp only [ExtTie.RandCore.fill_via_chunks {w // 8} U{w}.toLE _ _ (by decide) (fun _ => rfl), {gen}ge_iff_le, decide_eq_true_eq]
+            first | done | rfl)
+        fuel [] dest {st0} h rfl]
+  first | done | rfl""")
     return th
 
 def _read_into(w):
